@@ -149,7 +149,7 @@ var (
 	keySmall  = []string{`"a"`, `"\u0061"`, `"\u0062"`}
 )
 
-const corruptAlpha = "[]{}:,\"\\ 0-et\x00"
+const corruptAlpha = "[]{}:,\"\\ 0-et\x00\x1f\x7f"
 
 func c03(r *eng.Run) {
 	D := r.Pick(2, 3)
